@@ -702,6 +702,9 @@ func (db *RockDB) DelIfEQ(ts int64, rawKey []byte, oldV []byte) (int64, error) {
 }
 
 func (db *RockDB) SetRange(ts int64, rawKey []byte, offset int, value []byte) (int64, error) {
+	if offset < 0 {
+		return 0, errOffsetOutOfRange
+	}
 	if len(value) == 0 {
 		return 0, nil
 	}
